@@ -14,7 +14,7 @@ from mc import seams
 from mc.core import Explorer, violation
 
 ASSUMPTIONS = ["n=6 samples, d=3 features; scales up to 1000; learning rate 0.1, 3 epochs"]
-FAMILIES = ["plain", "x10", "x1000", "constant_column", "duplicated_column", "duplicated_rows", "all_rows_equal", "n_equals_K", "tiny_scale"]
+FAMILIES = ["plain", "x10", "x1000", "zero_column", "constant_column", "duplicated_column", "duplicated_rows", "all_rows_equal", "n_equals_K", "tiny_scale"]
 
 
 def make_data(family, seed):
@@ -25,6 +25,8 @@ def make_data(family, seed):
         X = X * 1000
     elif family == "tiny_scale":
         X = X * 1e-6
+    elif family == "zero_column":
+        X[:, 0] = 0.0
     elif family == "constant_column":
         X[:, 1] = 2.5
     elif family == "duplicated_column":
@@ -121,7 +123,7 @@ def explorers(tier, seed):
                             for mode in (("fit", "path") if name in M.SPARSE else ("fit",)):
                                 if not thorough:
                                     # quick: every (estimator, gemini, family) once with K rotating; solver/batch/K cross product on three families
-                                    full = family in ("x1000", "all_rows_equal", "duplicated_rows")
+                                    full = family in ("x1000", "all_rows_equal", "duplicated_rows", "zero_column")
                                     if not full and (solver == "sgd" or bs == 1 or K != (1 if FAMILIES.index(family) % 2 else 3)):
                                         continue
                                 cases.append((name, gemini, solver, family, K, bs, mode, seed))
